@@ -93,6 +93,12 @@ FEAT_MENU = [
 ]
 
 
+# zero-length members (a valid, unusual input: an insertion site / a feature reduced to a point).  Their truth value is
+# False (len 0), so any `if member:` shortcut in the aggregate treats them as absent.
+ZERO_TX = [(((5, 5),), "+", None, 0), (((0, 0),), "-", None, 0)]
+ZERO_FEAT = [(((5, 5),), "+", ["point"]), (((10, 10),), "-", None)]
+
+
 def _shift(ex):
     return tuple((s + SHIFT, e + SHIFT) for s, e in ex)
 
@@ -105,6 +111,29 @@ def menu_tx(i, flag=None):
 def menu_feat(i, flag=None):
     ex, strand, types = FEAT_MENU[i]
     return feat_child((_shift(ex), strand), flag, types)
+
+
+def zero_tx(i, flag=None):
+    ex, strand, cds, f0 = ZERO_TX[i]
+    return tx_child((_shift(ex), strand, cds), flag, f0)
+
+
+def zero_feat(i, flag=None):
+    ex, strand, types = ZERO_FEAT[i]
+    return feat_child((_shift(ex), strand), flag, types)
+
+
+def zero_arrangements(n_menu, n_zero, tier):
+    """every aggregate of 2..3 children that contains a zero-length member: (list of ('z', i) | ('m', j)) x flag vector"""
+    M = range(n_menu)
+    for z in range(n_zero):
+        others = [[("z", z2)] for z2 in range(n_zero) if z2 != z] + [[("m", a)] for a in M]
+        others += [[("m", a), ("m", b)] for a in M for b in (M if tier == "thorough" else range(0, n_menu, 3))]
+        for rest in others:
+            for pos in range(len(rest) + 1):
+                kids = rest[:pos] + [("z", z)] + rest[pos:]
+                for fv in flag_vectors(len(kids)):
+                    yield kids, fv
 
 
 # ---- aggregates -------------------------------------------------------------------------------------------------------
@@ -159,6 +188,11 @@ def gene_cases(tier, pick=lambda: True):
         for fa, fb in flag_vectors(2, FLAGS):
             if pick():
                 yield "menupair", gene_spec(N_MENU, [menu_tx(i, fa), menu_tx(j, fb)], "chrom-late")
+    # aggregates with a zero-length member in every position x every flag vector
+    for kids, fv in zero_arrangements(len(TX_MENU), len(ZERO_TX), tier):
+        for pk in ("chrom", "none"):
+            if pick():
+                yield "zerolen", gene_spec(N_MENU, [(zero_tx if k == "z" else menu_tx)(i, f) for (k, i), f in zip(kids, fv)], pk)
 
 
 def fc_cases(tier, pick=lambda: True):
@@ -187,6 +221,10 @@ def fc_cases(tier, pick=lambda: True):
         for fa, fb in flag_vectors(2, FLAGS):
             if pick():
                 yield "menupair", fc_spec(N_MENU, [menu_feat(i, fa), menu_feat(j, fb)], "chrom-late")
+    for kids, fv in zero_arrangements(len(FEAT_MENU), len(ZERO_FEAT), tier):
+        for pk in ("chrom", "none"):
+            if pick():
+                yield "zerolen", fc_spec(N_MENU, [(zero_feat if k == "z" else menu_feat)(i, f) for (k, i), f in zip(kids, fv)], pk)
 
 
 # ---- annotation collections -----------------------------------------------------------------------------------------------
@@ -243,9 +281,9 @@ def ac_cases(tier, pick=lambda: True):
             blist = [(None, None), (0, AC_N), (lo, hi)]
             if n <= 1:
                 blist += [(lo, None), (None, hi), (0, None), (None, 0)]
-            for pk in ("none", "chrom", list(AC_CHUNK)):
+            for pk in ("none", "chrom", list(AC_CHUNK), ["minus"] + list(AC_CHUNK)):
                 for b in blist:
-                    if b[0] is not None and b[1] is not None and isinstance(pk, list) and (b[0] < pk[0] or b[1] > pk[1]):
+                    if b[0] is not None and b[1] is not None and isinstance(pk, list) and (b[0] < pk[-2] or b[1] > pk[-1]):
                         continue  # explicit bounds outside the chunk: no documented meaning
                     if pick():
                         yield "ac", {"agg": "ac", "N": AC_N, "parent": pk, "bounds": list(b), "members": members}
